@@ -3,10 +3,21 @@
 
 enum { K_BURST = 20, K_ROUND = 21 };   // burst: a = first_id, count, target ; round: a = first seq
 
-struct ObsKey { int e, r; bool operator<(const ObsKey &o) const { return std::tie(e, r) < std::tie(o.e, o.r); } };
+struct ObsKey { uint64_t e, r; bool operator<(const ObsKey &o) const { return std::tie(e, r) < std::tie(o.e, o.r); } };   // keyed by the addresses themselves (two identities may stand for one address)
 
-static Mac obs_esrc(int id) { return mac_from_u64(0x0400CC000000ULL + (uint64_t)(id & 0xFFFFFF)); }
-static Mac obs_rsrc(int id) { return mac_from_u64(0x0400DD000000ULL + (uint64_t)(id & 0xFFFFFF)); }
+// identities 0xFFFFF0..3: the responder's own address, all-zero, all-ones, the first station's address - observations like any other
+static Mac g_own7, g_st0;
+static Mac obs_special(int id, uint64_t base) {
+    switch (id & 0xFFFFFF) {
+        case 0xFFFFF0: return g_own7;
+        case 0xFFFFF1: return ZEROMAC;
+        case 0xFFFFF2: return BCAST;
+        case 0xFFFFF3: return g_st0;
+        default: return mac_from_u64(base + (uint64_t)(id & 0xFFFFFF));
+    }
+}
+static Mac obs_esrc(int id) { return obs_special(id, 0x0400CC000000ULL); }
+static Mac obs_rsrc(int id) { return obs_special(id, 0x0400DD000000ULL); }
 
 static Verdict run(const Case &c) {
     Verdict v;
@@ -15,6 +26,7 @@ static Verdict run(const Case &c) {
     h.apply_global(w);
     int ifi = w.add_if(h.ifcfg());
     Mac own = h.ownmac(), other = mac_from_u64(0x0400EE000001ULL);
+    g_own7 = own; g_st0 = h.st_real(0);
     size_t cap = (h.mtu - 34) / 20;
     Shadow sh;
     OtherIf oif;
@@ -32,7 +44,7 @@ static Verdict run(const Case &c) {
         std::vector<Ev> tx = sends_only(w.deliver(ifi, f));
         if (!tx.empty()) { v.fail("a Probe/Train made the responder transmit"); return; }
         if (target == 0 || target == 3) {
-            ObsKey k{eid, rid};
+            ObsKey k{mac_to_u64(obs_esrc(eid)), mac_to_u64(obs_rsrc(rid))};
             if (obs.count(k)) had_dup = true;
             else obs[k] = QDesc{(uint16_t)(probe ? 1 : 0), obs_rsrc(rid), obs_esrc(eid), edst};
         } else had_foreign = true;
@@ -171,7 +183,7 @@ int main(int argc, char **argv) {
                 next_id += (int)n; left -= n;
                 int extras = *gx::range<int>(0, 3);
                 for (int x = 0; x < extras; x++) {
-                    int what = *gx::range<int>(0, 9);
+                    int what = *gx::range<int>(0, 10);
                     Op o;
                     if (what == 0 && next_id > 0) { int id = *gx::range<int>(0, next_id - 1); o.kind = K_PROBE; o.a = {id, id % 3, 0, 0}; }   // exact duplicate (maybe of an already reported one: then it is new again)
                     else if (what == 1) { o.kind = K_BURST; o.a = {*gx::range<int>(400, 800), *gx::range<int>(1, 5), *gx::pick({1, 1, 2, 3})}; }   // addressed to another station (both levels or one of them)
@@ -181,6 +193,7 @@ int main(int argc, char **argv) {
                     else if (what == 6 && next_id > 0) { int id = *gx::range<int>(0, next_id - 1); o.kind = K_PROBE; o.a = {id, (id + 1 + *gx::range<int>(0, 1)) % 3 + 3, 0, 0}; }   // same Ethernet source as an earlier observation, another real source: a distinct observation
                     else if (what == 7) { o.kind = K_RESET; o.a = {0, 1, 1}; }   // Reset of the quick-discovery service: releases the mapper, but the topology observations stay
                     else if (what == 8) { o.kind = K_SHELL; o.a = {*gx::range<int>(0, 2), 1, *gx::pick({6, 6, 2, 4}), *hg::seq_gen(), 0}; }   // quick discovery has no Query/Emit/Probe: such a frame is neither answered nor does it consume the record
+                    else if (what == 10) { o.kind = K_PROBE; o.a = {*gx::pick({0, 1, 0xFFFFF0, 0xFFFFF1, 0xFFFFF3}), *gx::pick({0xFFFFF0, 0xFFFFF0, 0xFFFFF1, 0xFFFFF2, 0xFFFFF3}), 0, 0}; }   // origin claimed: the responder itself, nobody, everybody, the mapper
                     else if (what == 9) { o.kind = K_OTHERIF; o.a = {*gx::pick({0, 3, 5, 5, 5, 1, 2}), 0, *gx::range<int>(1, 400)}; }
                     else { o.kind = K_HELLO; o.a = {1, 0, 7}; }
                     c.ops.push_back(o);
